@@ -195,7 +195,7 @@ def shapes(tier):
 def cases(tier, seed):
     kinds = [("num", False), ("tuple2", True), ("tuple2", False),
              ("tuple3", True), ("array", False), ("list", False),
-             ("str", False),
+             ("str", False), ("list1", False), ("mixtuple", False),
              # several outputs returned as an array / a list, split
              ("array", True), ("list", True)]
     j = 0
